@@ -176,7 +176,7 @@ def runCase (prop : Prop') (inp obs : String) : CaseResult :=
   -- C08 also checks, on the real lexer's streams, the two lexer facts the no-panic theorem assumes
   let wfOK := prop != .c08 || ["F.toks", "L.toks"].all fun k =>
     match (impl.get k).bind parseStream with
-    | some s => streamWFb s
+    | some s => streamWFb s && (s.eof.type == .EOF || s.eof.type == .EOL)   -- StreamWF and EndOK
     | none => false
   let sm := sm && wfOK
   let si := si && wfOK
